@@ -12,7 +12,7 @@ import (
 var (
 	idPool   = []string{"", "a", "b", "c", "A", "B"}
 	maskPool = []string{"0", "a", "s", "c", "a,s", "a,c", "s,c", "a,s,c", "x", "a,x", "a,a", "s,a", "f", "r", "f,r", "a,r", "a,s,c,f,r", "r,r", "f,s",
-		"fc", "fd", "fc,fd", "f,fc", "fd,a", "s,fc", "fc,fc", "fd,f,r", "fc,x"}
+		"fc", "fd", "fc,fd", "f,fc", "fd,a", "s,fc", "fc,fc", "fd,f,r", "fc,x", "fx", "f,fx", "fd,fx"}
 	wPool    = []string{"0", "a", "s", "c", "a,s", "a,c", "s,c", "a,s,c", "f", "r", "f,r", "a,f,r", "a,s,c,f,r", "fc", "fd,a", "fc,fd", "f,fd", "s,fc,r"}
 	fPool    = []string{"-", "0:0", "2:0", "0:3", "5:6", "1:9"}
 	rPool    = []string{"-", "7", "8.9", "-"}
